@@ -21,6 +21,9 @@ type HistCfg struct {
 	AfterCase func(c *Ctx, s *Sess, hist []EOp)
 	// Nontrivial decides whether the finished history counts (default: some op changed something and some op was refused)
 	SampleEvery int
+	// Quiet: run on the implementation only (nothing is recorded for the Lean driver): for configurations the
+	// enforcer model does not cover; the direct checks of AfterStep / AfterCase are then the whole check
+	Quiet bool
 }
 
 func histText(hist []EOp) string {
@@ -33,16 +36,23 @@ func histText(hist []EOp) string {
 
 // runHistory replays one history from a fresh enforcer, recording every line.
 func runHistory(c *Ctx, cfg *HistCfg, hist []EOp) {
-	s := StartCase(c, cfg.MS, cfg.Opts)
+	var s *Sess
+	do := func(o EOp) string { return s.Do(c, o) }
+	if cfg.Quiet {
+		s = StartCaseQuiet(cfg.MS, cfg.Opts)
+		do = func(o EOp) string { return s.Exec(o) }
+	} else {
+		s = StartCase(c, cfg.MS, cfg.Opts)
+	}
 	if s == nil {
 		return
 	}
 	for _, o := range cfg.Setup {
-		s.Do(c, o)
+		do(o)
 	}
 	changed, refused := false, false
 	for i, o := range hist {
-		obs := s.Do(c, o)
+		obs := do(o)
 		if obs == "true" || obs == "ok" {
 			changed = true
 		}
@@ -52,7 +62,7 @@ func runHistory(c *Ctx, cfg *HistCfg, hist []EOp) {
 		c.Count("op="+o.Kind, 1)
 		c.Count("res="+obs, 1)
 		for _, p := range cfg.Probes {
-			s.Do(c, p)
+			do(p)
 		}
 		if cfg.AfterStep != nil {
 			cfg.AfterStep(c, s, hist[:i+1], obs)
